@@ -252,6 +252,9 @@ func Offset(text string, line, char int) int {
 	lineEnd := len(text)
 	if end >= 0 {
 		lineEnd = off + end
+		if lineEnd > off && text[lineEnd-1] == '\r' {
+			lineEnd-- // the line ending is CR LF: neither byte is a character of the line
+		}
 	}
 	units := 0
 	for i, r := range text[off:lineEnd] {
